@@ -247,7 +247,7 @@ def gen_cases(rng, tier):
                 c['poses'][1]['r'] = [float(x) for x in qb]
                 c['points'] = c['points'][:2]
                 cases.append(c)
-    n_rand = 300 if tier == 'quick' else 3000
+    n_rand = 220 if tier == 'quick' else 3000
     for _ in range(n_rand):
         cases.append(_valid_case(rng))
     n_bad = 40 if tier == 'quick' else 300
